@@ -27,6 +27,7 @@ verus! {
 //@include spec/strmap.rs
 //@include spec/rename.rs
 //@include spec/evalctx.rs
+//@include spec/size.rs
 //@include spec/api.rs
 //@include spec/names.rs
 //@include spec/plain.rs
@@ -39,7 +40,7 @@ verus! {
 
 //@assume eval_node
 //@assume compute_steady_states
-//@trusted from_multiple_trees
+//@assume from_multiple_trees
 //@verify _model_check_multiple_trees_dirty
 //@verify model_check_multiple_trees_dirty
 //@verify _model_check_tree_dirty
@@ -64,7 +65,7 @@ verus! {
 //@verify model_check_multiple_formulae
 //@verify _model_check_formula
 //@verify model_check_formula
-//@trusted from_single_tree
+//@assume from_single_tree
 //@verify model_check_formula_unsafe_ex
 
 fn main() {}
